@@ -223,8 +223,16 @@ func (c *Ctx) c09Entropy() {
 	if impl != "err entropyLen" {
 		c.rep.violate(Violation{Kind: "property", Class: "nil-entropy", Op: "enc 2 nil", Impl: impl})
 	}
-	for _, base := range []int{256, 512, 1024, 2048, 4096, 65536, 1 << 20} {
+	bases := []int{256, 512, 1024, 2048, 4096, 65536, 1 << 17, 1 << 18, 1 << 20, 1 << 24}
+	if !c.quick {
+		// lengths whose bit count wraps 32 bits (2^29 bytes = 2^32 bits): one large allocation each
+		bases = append(bases, 1<<26, 1<<28, 1<<29)
+	}
+	for _, base := range bases {
 		for _, d := range []int{0, 16, 20, 24, 28, 32, 36} {
+			if base >= 1<<26 && d != 16 && d != 32 {
+				continue
+			}
 			n := base + d
 			impl := implEnc(int64(langVals[2]), make([]byte, n))
 			c.rep.count("large-length")
